@@ -9,10 +9,11 @@ namespace PM.FromDom
 /-! ### the content clause of `Node.check` -/
 
 mutual
-/-- every non-leaf node of the tree has a child-type sequence its type's content automaton accepts -/
+/-- every node of the tree has a child-type sequence its type's content automaton accepts (for a leaf: the
+    empty sequence) -/
 def contentOk (S : Schema) : Node → Bool
   | .text .. => true
-  | .leaf .. => true
+  | .leaf t _ _ => (S.dfa t).accepts []
   | .elem t _ _ kids => (S.dfa t).accepts (S.types kids) && contentOkAll S kids
 def contentOkAll (S : Schema) : List Node → Bool
   | [] => true
@@ -26,12 +27,29 @@ theorem contentOkAll_iff (S : Schema) : ∀ (l : List Node), contentOkAll S l = 
 theorem contentOk_withMarks (S : Schema) (n : Node) (m : Marks) : contentOk S (n.withMarks m) = contentOk S n := by
   cases n <;> simp [Node.withMarks, contentOk]
 
-theorem contentOk_mkNode (S : Schema) (t : TypeId) (a : Attrs) (m : Marks) (kids : List Node)
+/-- leaf types accept the empty content (`ContentMatch.empty.valid_end`; schema data) -/
+def LeafOk (S : Schema) : Prop := ∀ t, (S.nodeType t).isLeaf = true → (S.dfa t).accepts [] = true
+
+theorem leafOk_of_B (S : Schema) (h : leafOkB S = true) : LeafOk S := by
+  intro t ht
+  by_cases hlt : t < S.nodes.size
+  · simp only [leafOkB, List.all_eq_true, List.mem_range, Bool.or_eq_true, Bool.not_eq_eq_eq_not, Bool.not_true] at h
+    rcases h t hlt with h | h
+    · rw [h] at ht; cases ht
+    · exact h
+  · have : (S.nodeType t).isLeaf = false := by
+      simp only [Schema.nodeType]
+      rw [getElem!_neg S.nodes t hlt]
+      rfl
+    rw [this] at ht; cases ht
+
+theorem contentOk_mkNode (S : Schema) (hleaf : LeafOk S) (t : TypeId) (a : Attrs) (m : Marks) (kids : List Node)
     (h1 : (S.dfa t).accepts (S.types kids) = true) (h2 : ∀ n ∈ kids, contentOk S n = true) :
     contentOk S (mkNode S t a m kids) = true := by
   unfold mkNode
   split
-  · rfl
+  · rename_i hl
+    exact hleaf t hl
   · simp [contentOk, h1, (contentOkAll_iff S kids).mpr h2]
 
 def notText : Node → Prop
@@ -326,7 +344,7 @@ theorem fill_toEnd_run (d : Dfa) (hdet : ∀ q, ((d.edgesOf q).map (·.1)).Nodup
   | none => simp [hr] at this
   | some f => exact ⟨f, rfl, by simpa [hr] using this.2⟩
 
-theorem createAndFill_valid (S : Schema) (hdet : Det S) : ∀ (fuel : Nat) (t : TypeId) (n : Node),
+theorem createAndFill_valid (S : Schema) (hdet : Det S) (hleaf : LeafOk S) : ∀ (fuel : Nat) (t : TypeId) (n : Node),
     createAndFill S fuel t = .ok n → S.tyOf n = t ∧ contentOk S n = true ∧ notText n
   | 0, t, n, h => by simp [createAndFill] at h
   | fuel + 1, t, n, h => by
@@ -341,13 +359,28 @@ theorem createAndFill_valid (S : Schema) (hdet : Det S) : ∀ (fuel : Nat) (t : 
         · rename_i kids hk
           simp only [Except.ok.injEq] at h
           subst h
-          have ih := createAndFill_valid S hdet fuel
+          have ih := createAndFill_valid S hdet hleaf fuel
           refine ⟨tyOf_mkNode .., ?_, mkNode_notText ..⟩
-          apply contentOk_mkNode
+          apply contentOk_mkNode S hleaf
           · rw [mapRes_types S _ (fun a b hb => (ih a b hb).1) tys kids hk]
             obtain ⟨f, hf1, hf2⟩ := fill_toEnd_run (S.dfa t) (hdet t) _ 0 tys hfb
             simp [Dfa.accepts, hf1, hf2]
           · exact mapRes_all _ (fun b => contentOk S b = true) (fun a b hb => (ih a b hb).2.1) tys kids hk
+
+theorem createAndFill_notText (S : Schema) : ∀ (fuel : Nat) (t : TypeId) (n : Node),
+    createAndFill S fuel t = .ok n → notText n
+  | 0, t, n, h => by simp [createAndFill] at h
+  | fuel + 1, t, n, h => by
+    unfold createAndFill at h
+    split at h
+    · cases h
+    · split at h
+      · cases h
+      · split at h
+        · cases h
+        · simp only [Except.ok.injEq] at h
+          subst h
+          exact mkNode_notText ..
 
 theorem fappend_notText (a b : List Node) (hb : ∀ n ∈ b, notText n) : fappend a b = a ++ b := by
   unfold fappend
@@ -376,7 +409,7 @@ theorem fappend_notText (a b : List Node) (hb : ∀ n ∈ b, notText n) : fappen
 
 /-! ### `NodeContext.finish` builds a content-valid node -/
 
-theorem finishOk_contentOk (S : Schema) (hdet : Det S) (hts : TextStable S) :
+theorem finishOk_contentOk (S : Schema) (hdet : Det S) (hts : TextStable S) (hleaf : LeafOk S) :
     FinishOk S (fun n => contentOk S n = true) false := by
   intro cx t n hok hty hfin
   obtain ⟨_, hP, t', q, e1, e2, e3⟩ := hok
@@ -412,7 +445,7 @@ theorem finishOk_contentOk (S : Schema) (hdet : Det S) (hts : TextStable S) :
             | ok fl =>
               simp only [hmr, Except.map, Except.ok.injEq, Option.some.injEq] at hfill
               subst hfill
-              have hcf := createAndFill_valid S hdet (S.nodes.size + 1)
+              have hcf := createAndFill_valid S hdet hleaf (S.nodes.size + 1)
               have hftys := mapRes_types S _ (fun a b hb => (hcf a b hb).1) tys fl hmr
               have hfok := mapRes_all _ (fun b => contentOk S b = true) (fun a b hb => (hcf a b hb).2.1) tys fl hmr
               have hfnt := mapRes_all _ (fun b => notText b) (fun a b hb => (hcf a b hb).2.2) tys fl hmr
@@ -428,7 +461,7 @@ theorem finishOk_contentOk (S : Schema) (hdet : Det S) (hts : TextStable S) :
                   obtain ⟨q2, s3, s4⟩ := (fromArray_run S hts t _ q1 s1).1
                   exact ⟨q2, s3, s4.trans s2⟩
               obtain ⟨q2, k1, k2⟩ := hkept
-              apply contentOk_mkNode
+              apply contentOk_mkNode S hleaf
               · rw [types_append, hftys]
                 simp only [Dfa.accepts]
                 rw [Dfa.run_append, k1]
@@ -659,10 +692,10 @@ theorem run_flags (S : Schema) (wsPre : TypeId → Bool) : ∀ (events : List Ev
 
 /-! ### the finished document -/
 
-theorem finish_valid (S : Schema) (hdet : Det S) (hts : TextStable S) (st : PState) (doc : Node) (rest : List Node)
+theorem finish_valid (S : Schema) (hdet : Det S) (hts : TextStable S) (hleaf : LeafOk S) (st : PState) (doc : Node) (rest : List Node)
     (hc : Coh S (fun n => contentOk S n = true) st.nodes) (hf : flags st = (false, false))
     (h : st.finish S = .ok (some doc, rest)) : contentOk S doc = true := by
-  have hfo := finishOk_contentOk S hdet hts
+  have hfo := finishOk_contentOk S hdet hts hleaf
   obtain ⟨nodes, o, nb, io, to⟩ := st
   simp only [flags, Prod.mk.injEq] at hf
   obtain ⟨rfl, rfl⟩ := hf
